@@ -272,3 +272,22 @@ FIXED += [
     "fixed: property=C15 c54fd17 find_in_ast consumed a path segment at every FunctionDef it walked past (wrong node / not found)",
     "fixed: property=C15 c37504d RewriteAtQuery matched by the non-unique two-segment _location (wrong or no node replaced below depth two)",
 ]
+
+# ------------------------------------------------------------------------------------------------ sync (C09, C10, C11, C20)
+SYNCP = ["C09", "C10", "C11", "C20"]
+F("SYNC-stale-function-left-stale", SYNCP,
+  "sync leaves an existing, stale function / method / argparse-function target untouched (RewriteAtQuery never replaces a whole "
+  "FunctionDef; pinned by test__conform_filename_unchanged and test_ground_truth_changes) while reporting it unchanged",
+  ["Agreement"], when={"k": "sync", "target": ["function", "argparse"], "pre": "mod-stale", "changed": False})
+F("SYNC-method-target-created-at-module-level", SYNCP,
+  "sync with a method target `C.f` that does not exist yet (file missing / empty / class without f / no class) appends a bare "
+  "`def f` at module level instead of a method of C; `C.f` still does not resolve",
+  ["Agreement"], when={"k": "sync", "target": "function", "ctx": "method", "pre": ["missing", "empty", "mod-absent"], "extra": True})
+F("SYNC-second-run-reformats-module", SYNCP,
+  "sync: a class appended to a file with other statements is written without reformatting them; the next run re-emits the "
+  "whole module through black, so bytes change again on the second run (stable from the third)",
+  ["Idempotent"], when={"k": "sync", "target": "class", "changed": True, "pre": "mod-agree"})
+F("SYNC-method-target-appended-every-run", SYNCP,
+  "sync with a method target `C.f` that is never found appends another bare `def f` on every run (follows from "
+  "SYNC-method-target-created-at-module-level)",
+  ["Idempotent", "OldOrNew", "FrameKept"], when={"k": "sync", "target": "function", "ctx": "method", "extra": True})
